@@ -397,6 +397,149 @@ def judge_rspawn_batch(res, grp, got):
                 {"rspawn_child_output": core.hx(o[:60]), "status": st, "relayed": core.hx(rep[:70])})
 
 
+def run_rspawn_rounds(b, home, standin, rounds, deadline=120):
+    """One long-lived qmail-rspawn, as under qmail-send: each round hands one delivery to every slot (delivery
+    number) and waits for all reports before the slots are used again.  rounds = [[(output, status), ...], ...].
+    -> (list of rounds of report bytes (None = missing), rc, stderr)"""
+    import select as _select
+    d = home + "/cases"
+    errf = open(home + "/rspawn.err", "wb+")
+    p = subprocess.Popen([home + "/bin/qmail-rspawn"], stdin=subprocess.PIPE, stdout=subprocess.PIPE, stderr=errf,
+                         env=b.env(home, {"QMAILREMOTE": standin, "NQV_C09_DIR": d}))
+    t_end = time.time() + deadline
+    buf = bytearray()
+    first = [True]
+    results = []
+
+    def pump(want):
+        """read until `want` complete reports (delnum byte, text, NUL) are buffered; -> list or None"""
+        while True:
+            reps, i = [], (1 if first[0] else 0)
+            if not first[0] or len(buf) >= 1:
+                while i < len(buf) and len(reps) < want:
+                    e = buf.find(b"\0", i + 1)
+                    if e < 0:
+                        break
+                    reps.append((buf[i], bytes(buf[i + 1:e])))
+                    i = e + 1
+                if len(reps) == want:
+                    del buf[:i]
+                    first[0] = False
+                    return reps
+            left = t_end - time.time()
+            if left <= 0:
+                return None
+            r, _, _ = _select.select([p.stdout], [], [], min(left, 5))
+            if r:
+                chunk = os.read(p.stdout.fileno(), 65536)
+                if not chunk:
+                    return None
+                buf.extend(chunk)
+    n = 0
+    ok = True
+    try:
+        for rnd in rounds:
+            cmds = b""
+            for slot, (o, st) in enumerate(rnd):
+                with open("%s/%d.out" % (d, n), "wb") as f:
+                    f.write(o)
+                with open("%s/%d.st" % (d, n), "w") as f:
+                    f.write(st)
+                cmds += bytes([slot]) + b"0/1\0s@client.test\0c%d@dest.test\0" % n
+                n += 1
+            try:
+                p.stdin.write(cmds)
+                p.stdin.flush()
+            except OSError:
+                ok = False
+                break
+            reps = pump(len(rnd))
+            if reps is None:
+                ok = False
+                break
+            got = {}
+            for k, text in reps:
+                got.setdefault(k, text)
+            results.append([got.get(slot) for slot in range(len(rnd))])
+    finally:
+        try:
+            p.stdin.close()
+        except OSError:
+            pass
+        try:
+            rc = p.wait(timeout=20 if ok else 2)
+        except subprocess.TimeoutExpired:
+            p.kill()
+            p.wait()
+            rc = None
+        p.stdout.close()
+        errf.seek(0)
+        err = errf.read()
+        errf.close()
+    return results, (rc if ok or rc not in (0, None) else None), err
+
+
+def rspawn_seq_worker(bdir, standin, lo, hi, tier):
+    """slot reuse: what a slot relayed for an earlier delivery must not leak into a later one"""
+    res = core.Result()
+    b = build.Build("asan", bdir)
+    home = build.mktemp("nqv-c09s-")
+    try:
+        sandbox.make_home(b, home, controls={"me": "client.test"}, bins=("qmail-rspawn",))
+        os.makedirs(home + "/queue/mess/0", exist_ok=True)
+        os.makedirs(home + "/cases", exist_ok=True)
+        with open(home + "/queue/mess/0/1", "wb") as f:
+            f.write(MSG)
+        os.chown(home + "/queue/mess/0/1", sandbox.uid("q"), sandbox.gid("q"))
+        outs = rspawn_outputs()
+        small = [o for o in outs if len(o) < 3000]
+        for i in range(lo, hi):
+            rng = core.case_rng("C09", i, "rspawn-seq")
+            nslots = rng.choice([1, 1, 2, 3])
+            rounds = []
+            for r in range(rng.randint(2, 6)):
+                rounds.append([(rng.choice(small if rng.random() < 0.9 else outs),
+                                rng.choice(["e0", "e0", "e0", "e111", "e100", "s11", "e1"])) for _ in range(nslots)])
+            got, rc, err = run_rspawn_rounds(b, home, standin, rounds)
+            e = err.decode("latin1")
+            wit = {"history_index": i, "slots": nslots,
+                   "rounds": [[{"output": core.hx(o[:120]), "status": st} for o, st in rnd] for rnd in rounds]}
+            if rc is None:
+                res.inconclusive.append("qmail-rspawn (slot reuse) did not answer every delivery of history %d: %s" % (i, e[-200:]))
+                continue
+            if rc != 0:
+                if "Sanitizer" in e or "runtime error" in e or rc < 0:
+                    res.evaluations += 1
+                    res.violate("C20/sanitizer/qmail-rspawn/" + hrun.sanitizer_site(e),
+                                "qmail-rspawn died (rc=%s) in a slot-reuse history" % rc, dict(wit, stderr_tail=e[-2000:]))
+                else:
+                    res.inconclusive.append("qmail-rspawn rc=%s (slot reuse): %s" % (rc, e[-200:]))
+                continue
+            res.counters.inc("rspawn_seq_histories")
+            prev = {}
+            for rn, (rnd, reps) in enumerate(zip(rounds, got)):
+                for slot, ((o, st), rep) in enumerate(zip(rnd, reps)):
+                    res.evaluations += 1
+                    res.counters.inc("rspawn_seq_deliveries")
+                    w = wstat_of(st)
+                    site = rm.rspawn_site(w, o)
+                    if rn and prev.get(slot) != (o, st):
+                        res.nontrivial("rspawn-seq", prev.get(slot), o, st)
+                        res.counters.inc("rspawn_seq_slot_reused_with_other_outcome")
+                    prev[slot] = (o, st)
+                    w2 = dict(wit, round=rn, slot=slot, output_hex=o[:2000].hex(), status=st)
+                    if rep is None:
+                        res.violate("C09/rspawn-seq/no-report/" + site, "no report for delivery %d of slot %d" % (rn, slot), w2)
+                        continue
+                    for rule in judge_report(w, o, rep):
+                        res.violate("C09/rspawn-seq/%s/%s" % (rule, site),
+                                    "%s (delivery %d of slot %d in one qmail-rspawn process)" % (rule, rn + 1, slot),
+                                    dict(w2, report=core.hx(rep[:300])))
+        return res
+    finally:
+        shutil.rmtree(home, ignore_errors=True)
+
+
 def compile_standin(b):
     out = b.path("nqv_qr_standin")
     p = subprocess.run(["gcc", "-O1", "-o", out, os.path.join(H, "h_qr_standin.c")], capture_output=True, text=True)
@@ -414,6 +557,8 @@ def _job(kind, *a):
         return e2e_worker(*a)
     if kind == "rspawn":
         return rspawn_worker(*a)
+    if kind == "rspawn-seq":
+        return rspawn_seq_worker(*a)
     raise ValueError(kind)
 
 
@@ -482,6 +627,9 @@ def main(tier):
     rc_cases = rspawn_cases(tier)
     for k in range(4):
         jobs.append(("rspawn", b.dir, standin, rc_cases[k::4], tier))
+    nseq = core.scaled(160 if quick else 4000)
+    for lo, hi in core.chunks(nseq, 8):
+        jobs.append(("rspawn-seq", b.dir, standin, lo, hi, tier))
     jobs.sort(key=lambda j: 0 if j[0] == "e2e" else 1)       # stalls cost wall time: start them first (stable sort)
     res = core.pmap(_job, jobs, timeout=to * 2)
     # independent re-judgement of the emitted records by the Python model
@@ -510,7 +658,9 @@ def main(tier):
             "(b) %d scripts real qmail-remote -> loopback sink (every phase x class/drop for n=2, stalls, refused connect, random). "
             "(c) real report() on 56 output families x 511 wait statuses + %d random outputs, and the real qmail-rspawn binary with a scripted "
             "$QMAILREMOTE on %d output x status cases. Oracle = folded verdict per recipient (qmail-remote(8)) against the set of verdicts the "
-            "statement does not refute." % (n1max, deep[2], deep[3], nrand, len(cases), nrr, len(rc_cases)))
+            "statement does not refute; plus %d histories of one long-lived qmail-rspawn whose 1-3 delivery slots are reused 2-6 times with "
+            "different outputs and statuses (every report judged by the same rule: nothing of an earlier delivery may leak into a later one)."
+            % (n1max, deep[2], deep[3], nrand, len(cases), nrr, len(rc_cases), nseq))
     return core.finish(PROP, tier, "exploration", res, rule, t0, extra=extra, assumptions=[
         "reference model nqv/refmodel/remote_model.py (from qmail-remote(8), qmail-rspawn(8), RFC 5321 reply classes) and its C twin in "
         "the harnesses; the Python model re-judges emitted records from the script alone",
